@@ -1047,3 +1047,82 @@ func SeqHistory(r *hx.Rng, tier string) []hx.Zs {
 	}
 	return h
 }
+
+// ManyPendingHistory: many unanswered requests on one feature.  21-40 response callbacks are
+// registered on DISTINCT counters of one local feature (1-2 callbacks per counter, a few counters
+// spread over a second feature) before any response arrives; then a reply or result for every one
+// of these counters arrives, in random order (in half of the histories the lowest counters first,
+// in a quarter the counters in ascending order), now and then repeated.  Every callback must be
+// invoked exactly once however many counters are waiting.
+func ManyPendingHistory(r *hx.Rng, tier string) []hx.Zs {
+	e := []int64{1}
+	h := []hx.Zs{OpAddLocalEntity(e), OpAddLocalFeature(e, 1, 0), OpAddLocalFeature(e, 2, 1)}
+	targets := []LFeat{{Ent: e, Id: 1, Type: 1, Role: 0}, {Ent: e, Id: 2, Type: 2, Role: 1}, NMLocal}
+	var peers []*Peer
+	for k := int64(1); k <= 2; k++ {
+		p := &Peer{Ski: k, Feats: []RFeat{{Ent: e, Id: 1, Type: 1, Role: 1}, {Ent: e, Id: 2, Type: 2, Role: 0}}}
+		peers = append(peers, p)
+		h = append(h, p.Announce()...)
+	}
+	main := targets[r.Intn(len(targets))]
+	other := targets[(int(main.Id)+1)%len(targets)]
+	if r.Chance(1, 2) {
+		h = append(h, OpAddResultCb(main.Ent, main.Id, int64(r.Intn(NCallbacks-1))))
+	}
+	n := r.Range(21, 40)
+	base := int64(r.Range(1, 50)) * 100
+	type pend struct {
+		t   LFeat
+		ctr int64
+	}
+	var ps []pend
+	for i := 0; i < n; i++ {
+		ctr := base + int64(i)
+		h = append(h, OpAddRespCb(main.Ent, main.Id, ctr, int64(r.Intn(NCallbacks-1))))
+		if r.Chance(1, 4) {
+			h = append(h, OpAddRespCb(main.Ent, main.Id, ctr, int64(r.Intn(NCallbacks-1)))) // maybe a duplicate: refused
+		}
+		ps = append(ps, pend{main, ctr})
+		if r.Chance(1, 8) {
+			c2 := base + 500 + int64(i)
+			h = append(h, OpAddRespCb(other.Ent, other.Id, c2, int64(r.Intn(NCallbacks-1))))
+			ps = append(ps, pend{other, c2})
+		}
+	}
+	// the order of the responses
+	switch r.Pick(2, 1, 1) {
+	case 0: // lowest counters first, the rest shuffled
+		k := r.Range(3, 10)
+		for j := len(ps) - 1; j > k; j-- {
+			i := k + r.Intn(j-k+1)
+			ps[j], ps[i] = ps[i], ps[j]
+		}
+	case 1: // ascending
+	default:
+		for j := len(ps) - 1; j > 0; j-- {
+			i := r.Intn(j + 1)
+			ps[j], ps[i] = ps[i], ps[j]
+		}
+	}
+	for _, x := range ps {
+		p := peers[r.Intn(len(peers))]
+		d := Dgram{Src: p.Addr(p.Feats[0], r.Bool()), Dst: x.t.Addr(int64(r.Intn(2))), Ctr: p.Next(), Ref: x.ctr + 1, Fct: int64(r.Pick(6, 2, 1, 1))}
+		d.Ack, d.AckFalse = ackOf(r)
+		if r.Chance(1, 2) {
+			d.Result = true
+			d.Err = int64(r.Intn(4))
+		} else {
+			d.Cls = 1
+			d.Pl = Payload{Kind: 0, Fn: FnsOfType(1)[r.Intn(6)], V: int64(r.Range(1, 900))}
+			if x.t.Type == 5 {
+				d.Src = p.Addr(nmFeat, true)
+				d.Pl = Payload{Kind: 2, V: int64(r.Range(1, 900))}
+			}
+		}
+		h = append(h, OpInbound(p.Ski, d))
+		if r.Chance(1, 12) {
+			h = append(h, OpInbound(p.Ski, d)) // the same response again: nobody waits for it any more
+		}
+	}
+	return h
+}
